@@ -19,7 +19,9 @@ ANCHORS = {"src/skmatter/preprocessing/_data.py": [
 MAX_REPORTS = 8
 TOL = 1e-10        # kernel route: model on the same K as the implementation
 TOLF = 1e-8        # feature route: model on Phi, Psi (K was rounded once more, centring cancels)
+TOL32 = 1e-3       # float32 presentation: the classes compute in float32 (gated to well-conditioned cases)
 TOLP = 1e-8        # spectral route: pinv recomputed by the model from eigh(Kmm) (eps * condition number)
+TOL_, TOLF_, TOLP_ = TOL, TOLF, TOLP
 EPS_PENROSE = 1e-7
 RCOND = 1e-12      # the default of SparseKernelCenterer
 RCONDS = [None, None, 1e-12, 1e-15, 1e-10, 1e-7, 1e-5, 1e-3, 1e-2]   # None: constructor default
@@ -92,8 +94,16 @@ def gen_single(rng, quick):
     k = rng.randint(1, kmax)
     offset = rng.choice([0.0, 1.0, 5.0, 20.0])
     mag = gen_mag(rng)
-    Phi = gen_feats(rng, n, p, offset, mag)
-    Psi = gen_feats(rng, k, p, offset, mag) if rng.random() < 0.8 else [list(Phi[rng.randrange(n)]) for _ in range(k)]
+    # a quarter of the cases: small integer features (mag 1), so that the kernels are integer valued and
+    # can be PRESENTED as int64 / int32 / float32 arrays without changing a single value
+    intfeat = rng.random() < 0.25
+    if intfeat:
+        mag = 1.0
+        feats = lambda q: [[float(rng.randint(-5, 5)) for _ in range(p)] for _ in range(q)]  # noqa
+    else:
+        feats = lambda q: gen_feats(rng, q, p, offset, mag)  # noqa
+    Phi = feats(n)
+    Psi = feats(k) if rng.random() < 0.8 else [list(Phi[rng.randrange(n)]) for _ in range(k)]
     wkind = rng.choice(WKINDS)
     case = dict(Phi=Phi, Psi=Psi, w=gen_w(rng, n, wkind), wkind=wkind, mag=mag,
                 with_center=rng.random() < 0.7, with_trace=rng.random() < 0.7,
@@ -111,9 +121,17 @@ def gen_single(rng, quick):
             idx = rng.sample(range(n), m)
             A = [list(Phi[i]) for i in idx]       # active set: a subset of the samples
         else:
-            A = gen_feats(rng, m, p, offset, mag)
+            A = feats(m)
         case["A"] = A
         case["rcond"] = rng.choice(RCONDS)
+    # how the caller presents the arrays (same values): float64 C order, list of lists, Fortran order,
+    # and for integer-valued kernels int64 / int32 / float32.  SparseKernelCenterer reads .shape of its
+    # arguments (no validation): lists are not an admissible presentation there.
+    pres = ["f64", "f64", "fortran"] + (["list"] if case["kind"] == "kn" else [])
+    if intfeat and case.get("kernel", "linear") == "linear":
+        pres += ["int64", "int64", "int32", "float32"]
+    case["intfeat"] = intfeat
+    case["present"] = rng.choice(pres)
     return case
 
 
@@ -149,6 +167,30 @@ def sym_eigh(Kmm):
     return ev, U
 
 
+def present(a, kind, weights=False):
+    """the same values in another presentation (dtype / container / memory order)"""
+    a = np.asarray(a, dtype=float)
+    if kind in ("int64", "int32"):
+        lim = 2.0 ** (62 if kind == "int64" else 30)
+        if not np.all(a == np.rint(a)) or (a.size and float(np.max(np.abs(a))) >= lim):
+            return a.copy()                      # not representable in that integer type: stays float64
+        return a.astype(np.int64 if kind == "int64" else np.int32)
+    if kind == "float32":
+        return a.copy() if weights else a.astype(np.float32)
+    if kind == "list":
+        return a.tolist()
+    if kind == "fortran":
+        return np.asfortranarray(a.copy())
+    return a.copy()
+
+
+def scribble(*arrs):
+    """the caller overwrites its own arrays in place after a call has returned"""
+    for a in arrs:
+        if isinstance(a, np.ndarray) and a.size:
+            np.copyto(a, (a[::-1] * 3 + 1).astype(a.dtype), casting="unsafe")
+
+
 def _same(a, b):
     """bit-identical (NaN = NaN)"""
     return np.array_equal(np.asarray(a, dtype=float), np.asarray(b, dtype=float), equal_nan=True)
@@ -162,36 +204,48 @@ def run_impl(case):
     flags = dict(with_center=case["with_center"], with_trace=case["with_trace"])
     try:
         with np.errstate(all="ignore"):
+            pk = case.get("present", "f64")
+            pr = lambda a: present(a, pk)  # noqa
+            pw = lambda f=1.0: None if w is None else present(w * f, pk, weights=True)  # noqa
+            exact_w = pk != "float32"
             if case["kind"] == "kn":
                 K, Kt = kernels(case)
-                kn = KernelNormalizer(**flags).fit(K.copy(), sample_weight=w)
+                # the caller's own arrays go in (no defensive copy) and are overwritten after fit
+                Kc, wc = pr(K), pw()
+                kn = KernelNormalizer(**flags).fit(Kc, sample_weight=wc)
+                scribble(Kc, wc)
                 rec = dict(K=K.tolist(), Kt=Kt.tolist(),
                            rows=np.asarray(kn.K_fit_rows_, dtype=float).tolist(),
                            all=float(kn.K_fit_all_), scale=float(kn.scale_),
-                           TK=kn.transform(K.copy()).tolist(), TKt=kn.transform(Kt.copy()).tolist(),
-                           FT=KernelNormalizer(**flags).fit_transform(K.copy(), sample_weight=w).tolist())
-                if w is not None and case.get("pow2"):
-                    kn2 = KernelNormalizer(**flags).fit(K.copy(), sample_weight=w * 2.0 ** case["pow2"])
+                           TK=np.asarray(kn.transform(pr(K)), dtype=float).tolist(),
+                           TKt=np.asarray(kn.transform(pr(Kt)), dtype=float).tolist(),
+                           FT=np.asarray(KernelNormalizer(**flags).fit_transform(pr(K), sample_weight=pw()),
+                                         dtype=float).tolist())
+                if w is not None and case.get("pow2") and exact_w:
+                    kn2 = KernelNormalizer(**flags).fit(pr(K), sample_weight=pw(2.0 ** case["pow2"]))
                     rec["pow2_same"] = bool(
                         all(_same(getattr(kn, a), getattr(kn2, a)) for a in ("K_fit_rows_", "K_fit_all_", "scale_"))
-                        and _same(kn.transform(Kt.copy()), kn2.transform(Kt.copy())))
+                        and _same(kn.transform(pr(Kt)), kn2.transform(pr(Kt))))
                 return rec
             Knm, Kmm, Kt = kernels(case)
             rc, kw = eff_rcond(case.get("rcond")), rc_kw(case.get("rcond"))
-            sk = SparseKernelCenterer(**kw, **flags).fit(Knm.copy(), Kmm.copy(), sample_weight=w)
+            Knc, Kmc, wc = pr(Knm), pr(Kmm), pw()
+            sk = SparseKernelCenterer(**kw, **flags).fit(Knc, Kmc, sample_weight=wc)
+            scribble(Knc, Kmc, wc)
             P = np.linalg.pinv(Kmm, rc)          # hint 1: what C12 calls the pseudo-inverse (relative cut-off)
             ev, U = sym_eigh(Kmm)                # hint 2: spectral data, the model applies the cut-off itself
             same = None
-            if w is not None and case.get("pow2"):
-                sk2 = SparseKernelCenterer(**kw, **flags).fit(Knm.copy(), Kmm.copy(),
-                                                              sample_weight=w * 2.0 ** case["pow2"])
+            if w is not None and case.get("pow2") and exact_w:
+                sk2 = SparseKernelCenterer(**kw, **flags).fit(pr(Knm), pr(Kmm),
+                                                              sample_weight=pw(2.0 ** case["pow2"]))
                 same = bool(_same(sk.K_fit_rows_, sk2.K_fit_rows_) and _same(sk.scale_, sk2.scale_))
             return dict(Knm=Knm.tolist(), Kmm=Kmm.tolist(), Kt=Kt.tolist(), P=P.tolist(),
                         U=U.tolist(), ev=ev.tolist(), pow2_same=same,
                         rows=np.asarray(sk.K_fit_rows_, dtype=float).tolist(), scale=float(sk.scale_),
-                        T=sk.transform(Knm.copy()).tolist(), Tt=sk.transform(Kt.copy()).tolist(),
-                        FT=SparseKernelCenterer(**kw, **flags).fit_transform(
-                            Knm.copy(), Kmm.copy(), sample_weight=w).tolist())
+                        T=np.asarray(sk.transform(pr(Knm)), dtype=float).tolist(),
+                        Tt=np.asarray(sk.transform(pr(Kt)), dtype=float).tolist(),
+                        FT=np.asarray(SparseKernelCenterer(**kw, **flags).fit_transform(
+                            pr(Knm), pr(Kmm), sample_weight=pw()), dtype=float).tolist())
     except Exception as e:  # noqa
         return dict(error=type(e).__name__, error_msg=str(e))
 
@@ -226,11 +280,21 @@ def gate(case, rec):
     s = ref_scale(case, rec)
     if not np.isfinite(s):
         return "scale_not_finite"
+    f32 = case.get("present") == "float32"
     if case["kind"] == "kn":
         kmax = float(np.max(np.abs(rec["K"])))
-        if case["with_trace"] and abs(s) < 1e-6 * kmax:
-            return "scale_vanishes"
+        if case["with_trace"] and (s == 0 or abs(s) < (1e-2 if f32 else 1e-6) * kmax):
+            return "float32_scale_small" if f32 and abs(s) >= 1e-6 * kmax else "scale_vanishes"
         return None
+    if f32:
+        # float32 arrays are processed in float32 (no promotion): only well-conditioned problems
+        sv = np.linalg.svd(np.array(rec["Kmm"], dtype=float), compute_uv=False)
+        if sv[0] == 0 or sv.min() < 1e-3 * sv[0] or eff_rcond(case.get("rcond")) > 1e-6:
+            return "float32_Kmm_not_well_conditioned"
+        if case["with_trace"]:
+            kmax = float(np.max(np.abs(rec["Knm"])))
+            if s * s < 1e-2 * kmax * kmax * float(np.max(np.abs(rec["P"]))):
+                return "float32_scale_small"
     g = gate_kmm(rec["Kmm"], eff_rcond(case.get("rcond")))
     if g:
         return g
@@ -288,6 +352,9 @@ def oracle(case, rec):
     if case["kind"] in ("knhist", "skhist"):
         return H.oracle(case, rec)
     L = np.longdouble
+    # float32 arrays are processed in float32 by both classes (no promotion): float32 accuracy
+    tf = 1e5 if case.get("present") == "float32" else 1.0
+    E8, E7 = 1e-8 * tf, 1e-7 * tf
     Phi = np.array(case["Phi"], dtype=L)
     Psi = np.array(case["Psi"], dtype=L)
     n = Phi.shape[0]
@@ -312,27 +379,27 @@ def oracle(case, rec):
         else:
             Kc, Ktc = K, Kt
         sref = np.trace(Kc) / n if case["with_trace"] else L(1)
-        if abs(float(sref) - s) > 1e-8 * (kmax + abs(s)):
+        if abs(float(sref) - s) > E8 * (kmax + abs(s)):
             return "scale_ is %r, trace of the centred training kernel / n is %r" % (s, float(sref))
-        bound = 1e-8 * (kmax / abs(s))
+        bound = E8 * (kmax / abs(s))
         TK, TKt, FT = (np.array(rec[x], dtype=L) for x in ("TK", "TKt", "FT"))
-        if np.any(np.abs(TK - Kc / sref) > bound + 1e-8 * np.abs(TK)):
+        if np.any(np.abs(TK - Kc / sref) > bound + E8 * np.abs(TK)):
             return "transform(K) is not the centred kernel / scale"
         ktmax = max(kmax, float(np.max(np.abs(Kt))))
-        if np.any(np.abs(TKt - Ktc / sref) > 1e-8 * ktmax / abs(s) + 1e-8 * np.abs(TKt)):
+        if np.any(np.abs(TKt - Ktc / sref) > E8 * ktmax / abs(s) + E8 * np.abs(TKt)):
             return "transform(K_test) is not the kernel centred with the training means / scale"
-        if case["with_trace"] and abs(float(np.trace(TK)) - n) > 1e-7 * n * (1 + kmax / abs(s)):
+        if case["with_trace"] and abs(float(np.trace(TK)) - n) > E7 * n * (1 + kmax / abs(s)):
             return "trace of the transformed training kernel is %r, not n = %d" % (float(np.trace(TK)), n)
-        if np.any(np.abs(FT - TK) > bound + 1e-8 * np.abs(TK)):
+        if np.any(np.abs(FT - TK) > bound + E8 * np.abs(TK)):
             return "fit_transform(K) differs from fit(K).transform(K)"
         if case["kernel"] == "linear":
             mu = w @ Phi if case["with_center"] else np.zeros(Phi.shape[1], dtype=L)
             G = (Psi - mu) @ (Phi - mu).T
             G0 = (Phi - mu) @ (Phi - mu).T
             sf = np.trace(G0) / n if case["with_trace"] else L(1)
-            if np.any(np.abs(TKt - G / sf) > 1e-7 * ktmax / abs(s) + 1e-7 * np.abs(TKt)):
+            if np.any(np.abs(TKt - G / sf) > E7 * ktmax / abs(s) + E7 * np.abs(TKt)):
                 return "transform(K_test) is not the Gram matrix of the features centred by the weighted training mean / scale"
-            if np.any(np.abs(TK - G0 / sf) > 1e-7 * kmax / abs(s) + 1e-7 * np.abs(TK)):
+            if np.any(np.abs(TK - G0 / sf) > E7 * kmax / abs(s) + E7 * np.abs(TK)):
                 return "transform(K) is not the Gram matrix of the centred features / scale"
         return None
     Knm = np.array(rec["Knm"], dtype=L)
@@ -343,26 +410,26 @@ def oracle(case, rec):
     Kt = np.array(rec["Kt"], dtype=L)
     pm = float(np.max(np.abs(P)))
     cond = kmax * kmax * pm / (sr * sr) if case["with_trace"] else 0.0
-    if abs(s - sr) > 1e-7 * abs(sr) * (1 + cond):
+    if abs(s - sr) > E7 * abs(sr) * (1 + cond):
         return ("scale_ is %r; sqrt(trace(Knm_centered pinv(Kmm, rcond) Knm_centered^T) / n) with the "
                 "cut-off rcond * largest singular value is %r" % (s, sr))
     if case["with_center"]:
         cm = w @ T
-        if np.any(np.abs(cm) > 1e-8 * kmax / abs(s) * (1 + cond)):
+        if np.any(np.abs(cm) > E8 * kmax / abs(s) * (1 + cond)):
             return "weighted column means of the transformed training block are %s, not 0" % cm.astype(float).tolist()
     if case["with_trace"]:
         tr = float(np.trace(T @ P @ T.T))
-        if abs(tr - n) > 1e-7 * n * (1 + cond):
+        if abs(tr - n) > E7 * n * (1 + cond):
             return "trace of the centred Nystrom kernel of the transformed block is %r, not n = %d" % (tr, n)
     rows = (w @ Knm) if case["with_center"] else np.zeros(Knm.shape[1], dtype=L)
     ktmax = max(kmax, float(np.max(np.abs(Kt))))
-    if np.any(np.abs(Tt - (Kt - rows) / s) > 1e-8 * ktmax / abs(s) + 1e-8 * np.abs(Tt)):
+    if np.any(np.abs(Tt - (Kt - rows) / s) > E8 * ktmax / abs(s) + E8 * np.abs(Tt)):
         return "transform(K_test,M) is not (K - weighted column means of the training block) / scale_"
     if not case["with_trace"] and s != 1.0:
         return "with_trace=False but scale_ = %r" % s
     if not case["with_center"] and np.any(np.array(rec["rows"]) != 0):
         return "with_center=False but K_fit_rows_ is not zero"
-    if np.any(np.abs(np.array(rec["FT"], dtype=L) - T) > 1e-8 * kmax / abs(s) * (1 + cond) + 1e-8 * np.abs(T)):
+    if np.any(np.abs(np.array(rec["FT"], dtype=L) - T) > E8 * kmax / abs(s) * (1 + cond) + E8 * np.abs(T)):
         return "fit_transform differs from fit().transform()"
     return None
 
@@ -379,14 +446,16 @@ def colv(v):
 
 def case_coq(case, rec, diag=False):
     if case["kind"] in ("knhist", "skhist"):
-        return H.case_coq(case, rec, TOL, TOLP, EPS_PENROSE, diag=diag)
+        return H.case_coq(case, rec, TOL_, TOLP_, EPS_PENROSE, diag=diag)
+    f32 = case.get("present") == "float32"
+    tol, tolf, tolp = (TOL32, TOL32, TOL32) if f32 else (TOL_, TOLF_, TOLP_)
     n, p, k = len(case["Phi"]), len(case["Phi"][0]), len(case["Psi"])
     w = "[]" if case["w"] is None else colv(case["w"])
     if case["kind"] == "kn":
         feat = case["kernel"] == "linear"
         return "%s %s %s %d %d %d %s %s %s %s %s %s %s %s %s %s %s %s %s" % (
             "kn_case_checks" if diag else "kn_case_ok", cfg_coq(case), "true" if feat else "false",
-            n, p, k, C.fl(TOL), C.fl(TOLF), C.fmat(rec["K"]), w, C.fmat(rec["Kt"]),
+            n, p, k, C.fl(tol), C.fl(tolf), C.fmat(rec["K"]), w, C.fmat(rec["Kt"]),
             C.fmat(case["Phi"]), C.fmat(case["Psi"]),
             C.fmat([rec["rows"]]), C.fmat([[rec["all"]]]), C.fmat([[rec["scale"]]]),
             C.fmat(rec["TK"]), C.fmat(rec["TKt"]), C.fmat(rec["FT"]))
@@ -394,7 +463,7 @@ def case_coq(case, rec, diag=False):
     rc = eff_rcond(case.get("rcond"))
     pen = not truncates(rec["Kmm"], rc)
     return "%s %s %d %d %d %s %s %s %s %s %s %s %s %s %s %s %s %s %s %s %s %s" % (
-        "sc_case_checks" if diag else "sc_case_ok", cfg_coq(case), n, m, k, C.fl(TOL), C.fl(TOLP), C.fl(EPS_PENROSE),
+        "sc_case_checks" if diag else "sc_case_ok", cfg_coq(case), n, m, k, C.fl(tol), C.fl(tolp), C.fl(EPS_PENROSE),
         C.fl(rc), "true" if pen else "false",
         C.fmat(rec["Knm"]), w, C.fmat(rec["Kmm"]), C.fmat(rec["P"]), C.fmat(rec["U"]), C.fmat([rec["ev"]]),
         C.fmat(rec["Kt"]),
@@ -436,10 +505,11 @@ def run(ctx):
     ncases = 4000 if ctx.quick else 20000
     cases, recs = [], []
     stats = dict(kinds={}, flags={}, wkinds={}, shapes={}, gated={}, errors=0, rank_deficient_Kmm=0,
-                 penrose_residual_max=[0.0, 0.0, 0.0, 0.0], feature_magnitude={}, rcond={},
+                 penrose_residual_max=[0.0, 0.0, 0.0, 0.0], feature_magnitude={}, rcond={}, presentation={},
                  pinv_truncates_real_modes=0, eigenvalue_between_relative_and_absolute_cutoff=0,
                  histories=dict(steps=0, refits=0, rejected_fits=0, weighted_then_unweighted=0, set_params=0,
-                                rejected_transforms=0, raised_in_impl=0))
+                                rejected_transforms=0, raised_in_impl=0, inplace_transforms=0,
+                                weights_view_of_K_requested=0))
     for _ in range(ncases):
         c = gen_case(ctx.rng, ctx.quick)
         r = run_impl(c)
@@ -447,6 +517,9 @@ def run(ctx):
         recs.append(r)
         kk = c["kind"] + ("/" + c["kernel"] if c["kind"] == "kn" else "")
         stats["kinds"][kk] = stats["kinds"].get(kk, 0) + 1
+        pk = c.get("present")
+        if pk:
+            stats["presentation"][pk] = stats["presentation"].get(pk, 0) + 1
         if c["mag"] != 1.0:
             mk = "1e%+03d" % int(np.floor(np.log10(c["mag"])))
             stats["feature_magnitude"][mk] = stats["feature_magnitude"].get(mk, 0) + 1
@@ -460,6 +533,8 @@ def run(ctx):
             hs["weighted_then_unweighted"] += sum(1 for a, b in zip(good, good[1:])
                                                   if a["w"] is not None and b["w"] is None)
             hs["set_params"] += sum(1 for st in c["steps"] if st["op"] == "set")
+            hs["inplace_transforms"] += sum(1 for st in c["steps"] if st.get("inplace"))
+            hs["weights_view_of_K_requested"] += sum(1 for st in c["steps"] if st.get("wview"))
             hs["rejected_transforms"] += sum(1 for st in c["steps"] if st["op"] == "transform"
                                              and (st.get("unfitted") or st.get("badcols")))
             if "steps" in r:
